@@ -2,8 +2,8 @@ import ESRVerif.Proofs.PrinterPhrase
 import ESRVerif.Model.SymTerm
 /-!
 C12 helper: meaning of expressions and of Python ASTs under a symbol table, over an abstract structure of
-real-number operations with the laws the round trip needs.  Core Lean only (no Mathlib in this project's path);
-every law is a Mathlib lemma about `ℝ` with its total-function conventions (`x / 0 = 0`):
+real-number operations with the laws the round trip needs.  Core Lean only in this file; every law is proved for
+`ℝ` (Mathlib's operations, total-function conventions `x / 0 = 0`) in `Proofs/PrinterReal.lean` from the lemmas
 `mul_comm, mul_assoc, one_mul, sub_eq_add_neg, div_eq_mul_inv, neg_mul, neg_neg, mul_inv, inv_one, Int.cast_neg,
 zpow_neg, zpow_one, Real.rpow_neg (0 ≤ x), abs_of_nonneg, Real.sqrt_eq_rpow`.
 -/
